@@ -128,4 +128,163 @@ theorem dedupCells_of_nodup (k : Kind) (cs : List (List Int)) (h : (cs.map (node
     dedupCells k cs [] = cs := by
   simpa using dedup_go k cs [] h (by simp)
 
+/-! ### what an accepted parallel read guarantees -/
+
+theorem dedup_subset (k : Kind) (cs acc : List (List Int)) : ∀ c ∈ dedupCells k cs acc, c ∈ cs ∨ c ∈ acc := by
+  induction cs generalizing acc with
+  | nil => intro c hc; simp only [dedupCells, List.mem_reverse] at hc; exact .inr hc
+  | cons d cs ih =>
+    intro c hc
+    simp only [dedupCells] at hc
+    split at hc
+    · rcases ih acc c hc with h | h
+      · exact .inl (by simp [h])
+      · exact .inr h
+    · rcases ih (d :: acc) c hc with h | h
+      · exact .inl (by simp [h])
+      · simp only [List.mem_cons] at h
+        rcases h with rfl | h
+        · exact .inl (by simp)
+        · exact .inr h
+
+/-- with the index check, the chunk loop only returns rows whose node entries are in `[0, nnode)` -/
+theorem partCellLoop_checked {cfg : Cfg} (hci : cfg.checkIndex = true) {fl : Flavor} {bs : Bytes} {k : Kind} {nnode co fo : Int}
+    {chunk fuel ncell r : Nat} {cs : List (List Int)}
+    (h : partCellLoop cfg fl bs k nnode co fo chunk fuel ncell r = .ok cs) : cs.all (partIndexOk k nnode) = true := by
+  induction fuel generalizing r cs with
+  | zero => simp only [partCellLoop, Except.ok.injEq] at h; subst h; rfl
+  | succ fuel ih =>
+    simp only [partCellLoop] at h
+    by_cases hd : ncell ≤ r
+    · rw [if_pos hd] at h; simp only [Except.ok.injEq] at h; subst h; rfl
+    · rw [if_neg hd] at h
+      cases hp : packCell fl bs k co fo (min chunk (ncell - r)) r with
+      | error e => rw [hp] at h; simp at h
+      | ok X =>
+        rw [hp] at h
+        dsimp only at h
+        by_cases hbad : cfg.checkIndex = true ∧ X.all (partIndexOk k nnode) = false
+        · rw [if_pos hbad] at h; simp at h
+        · rw [if_neg hbad] at h
+          cases hl : partCellLoop cfg fl bs k nnode co fo chunk fuel ncell (r + min chunk (ncell - r)) with
+          | error e => rw [hl] at h; simp at h
+          | ok Y =>
+            rw [hl] at h
+            simp only [Except.ok.injEq] at h
+            subst h
+            have hX : X.all (partIndexOk k nnode) = true := by
+              cases hx : X.all (partIndexOk k nnode) with
+              | true => rfl
+              | false => exact absurd ⟨hci, hx⟩ hbad
+            rw [List.all_append, hX, ih hl]; rfl
+
+theorem partSection_ok {cfg : Cfg} {fl : Flavor} {bs : Bytes} {np : Nat} {co : Option Nat} {hdr : List Int} {k : Kind}
+    {cs : List (List Int)} (h : partSection cfg fl bs np co hdr k = .ok cs) :
+    ∀ c ∈ cs, partIndexOk k (hdr.getD 0 0) c = true := by
+  unfold partSection at h
+  dsimp only at h
+  by_cases h0 : hdr.getD k.hdrIndex 0 ≤ 0
+  · rw [if_pos h0] at h; simp only [Except.ok.injEq] at h; subst h; simp
+  · rw [if_neg h0] at h
+    have key : ∀ chunk : Nat,
+        (if (k.sizePer : Int) * (chunk : Int) ≥ 2 ^ 31 then (Except.error Status.undefined : Except Status _) else
+          if cfg.allocCap < 8 * k.sizePer * chunk then .error .null else
+          match partCellLoop cfg fl bs k (hdr.getD 0 0) (offsetsOf k (UgridOffsets.ibyte fl.fat) hdr).1
+              (offsetsOf k (UgridOffsets.ibyte fl.fat) hdr).2 chunk (hdr.getD k.hdrIndex 0).toNat
+              (hdr.getD k.hdrIndex 0).toNat 0 with
+          | .error e => .error e
+          | .ok cs0 =>
+            if cs0.all (partIndexOk k (hdr.getD 0 0)) = true ∧ (implicitPart (hdr.getD 0 0) np 0).isSome = true then
+              .ok (dedupCells k cs0 [])
+            else .error .undefined) = .ok cs →
+        ∀ c ∈ cs, partIndexOk k (hdr.getD 0 0) c = true := by
+      intro chunk h
+      by_cases h1 : (k.sizePer : Int) * (chunk : Int) ≥ 2 ^ 31
+      · rw [if_pos h1] at h; simp at h
+      · rw [if_neg h1] at h
+        by_cases h2 : cfg.allocCap < 8 * k.sizePer * chunk
+        · rw [if_pos h2] at h; simp at h
+        · rw [if_neg h2] at h
+          cases hl : partCellLoop cfg fl bs k (hdr.getD 0 0) (offsetsOf k (UgridOffsets.ibyte fl.fat) hdr).1
+              (offsetsOf k (UgridOffsets.ibyte fl.fat) hdr).2 chunk (hdr.getD k.hdrIndex 0).toNat
+              (hdr.getD k.hdrIndex 0).toNat 0 with
+          | error e => rw [hl] at h; simp at h
+          | ok cs0 =>
+            rw [hl] at h
+            dsimp only at h
+            by_cases hg : cs0.all (partIndexOk k (hdr.getD 0 0)) = true ∧
+                (implicitPart (hdr.getD 0 0) np 0).isSome = true
+            · rw [if_pos hg] at h
+              simp only [Except.ok.injEq] at h
+              subst h
+              intro c hc
+              rcases dedup_subset k cs0 [] c hc with hc' | hc'
+              · exact (List.all_eq_true.1 hg.1) c hc'
+              · simp at hc'
+            · rw [if_neg hg] at h; simp at h
+    cases co with
+    | none => exact key _ h
+    | some c => exact key c h
+
+theorem partSections_ok {cfg : Cfg} {fl : Flavor} {bs : Bytes} {np : Nat} {co : Option Nat} {hdr : List Int}
+    {ks : List Kind} {css : List (List (List Int))} (h : partSections cfg fl bs np co hdr ks = .ok css) :
+    css.length = ks.length ∧ ∀ p ∈ ks.zip css, ∀ c ∈ p.2, partIndexOk p.1 (hdr.getD 0 0) c = true := by
+  induction ks generalizing css with
+  | nil => simp only [partSections, Except.ok.injEq] at h; subst h; simp
+  | cons k ks ih =>
+    simp only [partSections] at h
+    cases h1 : partSection cfg fl bs np co hdr k with
+    | error e => rw [h1] at h; simp at h
+    | ok cs =>
+      rw [h1] at h
+      dsimp only at h
+      cases h2 : partSections cfg fl bs np co hdr ks with
+      | error e => rw [h2] at h; simp at h
+      | ok css' =>
+        rw [h2] at h
+        simp only [Except.ok.injEq] at h
+        subst h
+        obtain ⟨hl, hm⟩ := ih h2
+        refine ⟨by simp [hl], ?_⟩
+        intro p hp
+        simp only [List.zip_cons_cons, List.mem_cons] at hp
+        rcases hp with rfl | hp
+        · exact partSection_ok h1
+        · exact hm p hp
+
+/-- an accepted parallel read: six cell lists, every node entry of every stored cell in `[0, nnode)`, and exactly
+    `nnode` vertices read -/
+theorem partRead_ok {cfg : Cfg} {fl : Flavor} {np : Nat} {co : Option Nat} {bs : Bytes} {pm : PartMesh}
+    (h : partReadWith cfg fl np co bs = .ok pm) :
+    pm.cells.length = 6 ∧ pm.nodes.length = pm.nnode.toNat ∧
+    ∀ p ∈ Kind.all.zip pm.cells, ∀ c ∈ p.2, ∀ x ∈ c.take p.1.nodePer, 0 ≤ x ∧ x < pm.nnode := by
+  unfold partReadWith at h
+  cases h0 : rdHeaderPart fl bs with
+  | error e => rw [h0] at h; simp at h
+  | ok p0 =>
+    obtain ⟨hdr, s⟩ := p0
+    rw [h0] at h
+    dsimp only at h
+    by_cases hz : partHeaderHazard np hdr = true
+    · rw [if_pos hz] at h; simp at h
+    · rw [if_neg hz] at h
+      cases hv : rdVerts fl (hdr.getD 0 0).toNat s with
+      | error e => rw [hv] at h; simp at h
+      | ok pv =>
+        obtain ⟨nodes, s1⟩ := pv
+        rw [hv] at h
+        dsimp only at h
+        cases hs : partSections cfg fl bs np co hdr Kind.all with
+        | error e => rw [hs] at h; simp at h
+        | ok css =>
+          rw [hs] at h
+          simp only [Except.ok.injEq] at h
+          subst h
+          obtain ⟨hl, hm⟩ := partSections_ok hs
+          refine ⟨by simpa [Kind.all] using hl, (rdVerts_len hv).1, ?_⟩
+          intro p hp c hc x hx
+          have := hm p hp c hc
+          unfold partIndexOk at this
+          simpa using (List.all_eq_true.1 this) x hx
+
 end Refine.Lemmas.Ugrid
